@@ -2,7 +2,7 @@ import Resolvo.Drv.Parse
 import Resolvo.Oracles
 import Resolvo.Drv.Trace
 import Resolvo.Graph
-import Resolvo.MDet.Solve
+import Resolvo.MDet.Checked
 /-! Driver for the solver families: evaluates the oracles on the implementation's outputs. -/
 namespace Resolvo.Drv
 open Resolvo
@@ -90,7 +90,7 @@ def oracleSolve (U : Universe) (P : Problem) (cfg : String) (r : ImplSolve) : Li
   let info := [s!"info solvable {solvable} result {r.result}"] ++ (if r.result == "panic" || r.result == "abort" then [] else traceOracle U P r)
   let sync := cfgGet cfg "mode" == "sync"
   let cancelled := cfgGet cfg "cancel" != "-"
-  match r.result with
+  let ls : List String := match r.result with
   | "ok" =>
     let sel := r.solution
     let exempt := P.soft.filter (fun s => sel.contains s)
@@ -130,11 +130,12 @@ def oracleSolve (U : Universe) (P : Problem) (cfg : String) (r : ImplSolve) : Li
     let o2 := if solvable then [s!"oracle-fail C02,C10,C13,C14,C15 verdict: implementation says Unsolvable but a solution exists (decideSolvable=true)"] else []
     info ++ o2 ++ graphOracle U P r
   | "cancelled" =>
-    if cancelled then info else info ++ [s!"oracle-fail C12 spurious-cancel: Cancelled returned although should_cancel_with_value never fired"]
+    if cancelled && r.calls.any (·.startsWith "P") then info
+    else info ++ [s!"oracle-fail C12 spurious-cancel: Cancelled returned although should_cancel_with_value never returned a value"]
   | "panic" =>
     info ++ [s!"oracle-fail C04,C10,C13,C14 panic: {r.resultArg}"]
   | other => info ++ [s!"oracle-fail C04,C10,C13 outcome: unexpected result {other}"]
-  |> fun ls =>
+  (
     -- C09 / C10 at-most-once on every outcome; causality for sync runs without hints
     let d := match dupCalls r.calls with
       | some c => [s!"oracle-fail C09,C10,C13 at-most-once: provider call {c} issued twice"]
@@ -144,7 +145,41 @@ def oracleSolve (U : Universe) (P : Problem) (cfg : String) (r : ImplSolve) : Li
         | some why => [s!"oracle-fail C09 causal: {why}"]
         | none => []
       else []
-    ls ++ d ++ c
+    -- C12: cancellation is honoured promptly and faithfully
+    let plan := cfgGet cfg "cancel"
+    let c12 :=
+      if plan == "-" || plan == "" then []
+      else
+        let isCall (w : String) := w.startsWith "c" || w.startsWith "d"
+        -- position of the first poll that returned a value
+        let firstFired := (r.calls.takeWhile (fun w => !w.startsWith "P")).length
+        let observed := firstFired < r.calls.length
+        let afterObs := (r.calls.drop (firstFired + 1)).filter isCall
+        let o1 := if observed && r.result != "cancelled" then
+            [s!"oracle-fail C12 not-cancelled: should_cancel_with_value returned a value at a poll but solve returned `{r.result}`"] else []
+        let o2 := if observed && r.result == "cancelled" &&
+                     r.resultArg != toString (7000 + nat! ((r.calls.getD firstFired "P0").drop 1).toString) then
+            [s!"oracle-fail C12 wrong-value: Cancelled carries {r.resultArg}, the provider returned {7000 + nat! ((r.calls.getD firstFired "P0").drop 1).toString}"] else []
+        let o3 := if !afterObs.isEmpty then
+            [s!"oracle-fail C12 call-after-cancel: provider request {afterObs.headD ""} was started after cancellation had been observed"] else []
+        -- call-indexed plans: the signal goes up while request number j is served
+        let o4 := if plan.startsWith "c" then
+            let j := nat! (plan.drop 1).toString
+            let callIdxs := (r.calls.zipIdx.filter (fun p => isCall p.1)).map (·.2)
+            match callIdxs[j]? with
+            | some pos =>
+              let later := (r.calls.drop (pos + 1)).filter isCall
+              let transient := cfgGet cfg "transient" == "1"
+              (if !later.isEmpty then
+                [s!"oracle-fail C12 request-after-signal: the cancellation signal went up during provider request number {j} but request {later.headD ""} was still started afterwards (no poll in between)"] else []) ++
+              (if !transient && r.result != "cancelled" && r.result != "panic" then
+                [s!"oracle-fail C12 signal-ignored: the cancellation signal went up during provider request number {j} and stayed up, but solve returned `{r.result}`"] else []) ++
+              (if transient && later.isEmpty && r.result != "cancelled" && r.result != "panic" then
+                [s!"oracle-fail C12 signal-ignored: the (transient) signal was up until the next provider request; none followed, yet solve returned `{r.result}`"] else [])
+            | none => []
+          else []
+        o1 ++ o2 ++ o3 ++ o4
+    ls ++ d ++ c ++ c12)
 
 def parseF32 (s : String) : Float32 :=
   match s.splitOn "." with
@@ -156,7 +191,8 @@ def parseF32 (s : String) : Float32 :=
 def mdetInit (cfg : String) : Resolvo.MDet.S :=
   let c := cfgGet cfg "cancel"
   let act := cfgGet cfg "activity"
-  let s0 : Resolvo.MDet.S := { cancelAt := c.toNat?, cancelTransient := cfgGet cfg "transient" == "1" }
+  let s0 : Resolvo.MDet.S := { cancelAt := c.toNat?, cancelAtCall := (if c.startsWith "c" then (c.drop 1).toString.toNat? else none),
+                                cancelTransient := cfgGet cfg "transient" == "1" }
   match act.splitOn ":" with
   | [a, d] => { s0 with activityAdd := parseF32 a, activityDecay := parseF32 d }
   | _ => s0
@@ -201,7 +237,13 @@ def runSolve (lines : List String) : List String :=
             let fuel := 400 + 40 * (U.solvs.length + U.vsets.length) * (U.solvs.length + 4)
             let (o, ms') := Resolvo.MDet.solveRun U p fuel { ms with trace := [] }
             let newLog := (ms'.log.take (ms'.log.length - ms.log.length)).reverse
-            (mdetCompare o newLog ms'.trace.reverse i, ms')
+            -- the checked model: its own history and answer go through the verified checkers
+            let chk := match Resolvo.MDet.checkOutcome U p o ms'.trace.reverse with
+              | .checkFailed what => [s!"oracle-fail C01,C02,C03,C05,C14,C15 mdet-checkfailed: the model's own run does not pass the verified checkers: {what}"]
+              | .ok _ => ["info checked ok"]
+              | .unsat _ => ["info checked unsat"]
+              | .stop _ => ["info checked stop"]
+            (mdetCompare o newLog (ms'.trace.reverse.map Resolvo.MDet.evLine) i ++ chk, ms')
           else ([], ms)
         go ps' is' (k + 1) md.2 (acc ++ [s!"solve {k}"] ++ oracleSolve U p cfg i ++ md.1)
       | _, _ => acc
